@@ -5,6 +5,8 @@ CONSTANTS
   MaxEdits = 3
   Queries = {"", "a", "b", "ab"}
   MaxReloads = 0
+  TailN = 0
+  BumpOnTrim = TRUE
   AllowOlder = FALSE
 SPECIFICATION Spec
 INVARIANTS PublishedIsFilter ShownIsFilter MergerCacheSound ChunkCacheSound Convergence
